@@ -228,3 +228,182 @@ def train_case(seed, depth, width, activation, squash, normalize, low, high, lr=
     out["eval_compared"] = n_eval
     out["problems"] = out["problems"][:12]
     return out
+
+
+# ------------------------------------------------------------------------------------------------------------------
+# random-parameter cases (no training): Policy vs Actor on ActorCritic.init parameters
+
+ACTS = ["tanh", "relu", "gelu", "softplus"]
+
+
+def _np_act(name):
+    import numpy as onp
+
+    if name == "tanh":
+        return onp.tanh
+    if name == "relu":
+        return lambda x: onp.maximum(x, 0.0)
+    if name == "gelu":  # flax nn.gelu, approximate=True
+        return lambda x: 0.5 * x * (1.0 + onp.tanh(onp.sqrt(2.0 / onp.pi) * (x + 0.044715 * x**3)))
+    if name == "softplus":
+        return lambda x: onp.logaddexp(x, 0.0)
+    raise KeyError(name)
+
+
+def numpy_forward(layers, activation, x):
+    """float64 forward pass; returns (mean, largest magnitude met) — used for the float32 tolerance and as a third opinion"""
+    import numpy as onp
+
+    act = _np_act(activation)
+    h = onp.asarray(x, onp.float64)
+    mag = float(onp.max(onp.abs(h))) if h.size else 0.0
+    for i, (W, b) in enumerate(layers):
+        h = h @ onp.asarray(W, onp.float64) + onp.asarray(b, onp.float64)
+        mag = max(mag, float(onp.max(onp.abs(h))))
+        if i < len(layers) - 1:
+            h = act(h)
+    return h, mag
+
+
+def reference_batch(actor_params, depth, width, activation, ns, low, high, squash, obs, keys):
+    """`reference_action` for a batch of observations [n, obs_dim] with one key per row (flax Dense and distrax broadcast over
+    the leading axis; the per-row sample is `MultivariateNormalDiag(mean_i, std).sample(seed=key_i)`)."""
+    import distrax
+    import jax
+    import jax.numpy as jnp
+    import numpy as onp
+
+    from rex.actor_critic import Actor
+
+    obs = jnp.asarray(obs, dtype=jnp.float32)
+    if ns is not None:
+        mean, var, clip = ns
+        x = (obs - jnp.asarray(mean, jnp.float32)[None]) / jnp.sqrt(jnp.asarray(var, jnp.float32) + 1e-8)[None]
+        x = jnp.clip(x, -clip, clip)
+    else:
+        x = obs
+    actor = Actor(int(onp.asarray(low).shape[0]), num_hidden_units=width, num_hidden_layers=depth, hidden_activation=activation, state_independent_std=True)
+    pi = actor.apply({"params": actor_params}, x)
+    mean_raw = pi.mean()
+    std = pi.stddev()[0]
+    smp = jax.vmap(lambda m, k: distrax.MultivariateNormalDiag(m, std).sample(seed=k))(mean_raw, keys)
+    lo, hi = jnp.asarray(low, jnp.float32), jnp.asarray(high, jnp.float32)
+    unsq = (lambda raw: 0.5 * (jnp.tanh(raw) + 1.0) * (hi - lo) + lo) if squash else (lambda raw: jnp.clip(raw, lo, hi))
+    A = lambda v: onp.asarray(v)
+    n = obs.shape[0]
+    return [dict(norm_obs=A(x[i]), mean_raw=A(mean_raw[i]), std=A(std), action=A(unsq(mean_raw[i])), sample_raw=A(smp[i]), sample=A(unsq(smp[i]))) for i in range(n)]
+
+
+def net_case(spec):
+    """spec: dict(seed, depth, width, obs_dim, act_dim, activation, squash, normalize, clip, n_obs, tiny_var). Runs the REAL
+    Policy (rex.ppo) and an independent reference (rex.actor_critic.Actor + written-out normalisation / squashing) on the same
+    randomly initialised parameters. Returns the raw numbers; the caller judges them."""
+    import jax
+    import jax.numpy as jnp
+    import numpy as onp
+
+    import rex.ppo as ppo
+    import rex.rl as rl
+    from rex.actor_critic import Actor, ActorCritic, Critic
+
+    assert os.path.realpath(ppo.__file__).startswith(os.path.realpath(REPO)), ppo.__file__
+    seed, depth, width, obs_dim, act_dim, activation = spec["seed"], spec["depth"], spec["width"], spec["obs_dim"], spec["act_dim"], spec["activation"]
+    rs = onp.random.RandomState(seed)
+    actor = Actor(act_dim, num_hidden_units=width, num_hidden_layers=depth, hidden_activation=activation, kernel_init_type="xavier_uniform", state_independent_std=True)
+    critic = Critic(num_hidden_units=width, num_hidden_layers=depth, hidden_activation=activation, kernel_init_type="xavier_uniform")
+    params = ActorCritic(actor=actor, critic=critic).init(jax.random.PRNGKey(seed), jnp.zeros((obs_dim,)))["params"]
+    params = jax.tree_util.tree_map(lambda x: onp.asarray(x), params)
+    ap = dict(params["actor"])
+    out = dict(spec=spec, problems=[])
+    want_keys = sorted([f"Dense_{i}" for i in range(depth + 1)] + ["log_std"])
+    if sorted(ap.keys()) != want_keys:
+        out["problems"].append(dict(key="param_keys", desc=f"Actor(num_hidden_layers={depth}) parameter dict has keys {sorted(ap.keys())}, the model assumes {want_keys}"))
+        return out
+    # make the parameters generic: non-zero log_std, sizeable biases, kernels scaled so that saturating activations are exercised
+    ap["log_std"] = rs.uniform(-1.5, 0.7, size=(act_dim,)).astype(onp.float32)
+    gain = float(rs.choice([0.5, 1.0, 2.0]))
+    for i in range(depth + 1):
+        d = dict(ap[f"Dense_{i}"])
+        d["kernel"] = (onp.asarray(d["kernel"]) * gain).astype(onp.float32)
+        d["bias"] = rs.normal(0, 0.3, size=onp.asarray(d["bias"]).shape).astype(onp.float32)
+        ap[f"Dense_{i}"] = d
+    params = dict(params)
+    params["actor"] = ap
+    layers = [(ap[f"Dense_{i}"]["kernel"], ap[f"Dense_{i}"]["bias"]) for i in range(depth + 1)]
+
+    low = rs.uniform(-3, 0.5, size=(act_dim,)).astype(onp.float32)
+    high = (low + rs.uniform(0.2, 5.0, size=(act_dim,))).astype(onp.float32)
+    ns = None
+    obs_scaling = None
+    if spec["normalize"]:
+        mean = rs.uniform(-2, 2, size=(obs_dim,)).astype(onp.float32)
+        var = (10.0 ** rs.uniform(-2, 1.5, size=(obs_dim,))).astype(onp.float32)
+        if spec.get("tiny_var") and obs_dim > 0:
+            var[rs.randint(obs_dim)] = onp.float32(10.0 ** rs.uniform(-7, -4))  # a (nearly) constant observation dimension
+        ns = (mean, var, float(spec["clip"]))
+        obs_scaling = rl.NormalizeVec(mean=jnp.asarray(mean), var=jnp.asarray(var), count=jnp.asarray(1000.0), return_val=None, clip=float(spec["clip"]))
+    act_scaling = rl.SquashState(low=jnp.asarray(low), high=jnp.asarray(high), squash=bool(spec["squash"]))
+    policy = ppo.Policy(act_scaling=act_scaling, obs_scaling=obs_scaling, model=jax.tree_util.tree_map(jnp.asarray, params),
+                        hidden_activation=activation, output_activation="gaussian", state_independent_std=True)  # fmt: skip
+
+    # observations: inside the training range, far outside, one coordinate far outside
+    n = spec["n_obs"]
+    center = ns[0] if ns else onp.zeros(obs_dim, onp.float32)
+    std = onp.sqrt(ns[1]) if ns else onp.ones(obs_dim, onp.float32)
+    obs = []
+    for k in range(n):
+        m = k % 3
+        if m == 0:
+            o = center + std * rs.uniform(-2.5, 2.5, size=(obs_dim,))
+        elif m == 1:
+            o = rs.uniform(-1, 1, size=(obs_dim,)) * 10.0 ** rs.uniform(1, 6)
+        else:
+            o = center + std * rs.uniform(-2, 2, size=(obs_dim,))
+            j = rs.randint(obs_dim)
+            o[j] = center[j] + rs.choice([-1, 1]) * std[j] * 10.0 ** rs.uniform(1.05, 4)
+        obs.append(o.astype(onp.float32))
+    obs = onp.stack(obs)
+    keys = jax.random.split(jax.random.PRNGKey(seed + 7919), n)
+
+    # ---- the REAL policy (batched through vmap, and unbatched for the first observations)
+    got_det = onp.asarray(jax.vmap(lambda o: policy.get_action(o))(jnp.asarray(obs)))
+    got_smp = onp.asarray(jax.vmap(lambda o, k: policy.get_action(o, rng=k))(jnp.asarray(obs), keys))
+    nu = min(3, n)
+    got_det_u = onp.stack([onp.asarray(policy.get_action(jnp.asarray(obs[i]))) for i in range(nu)])
+    got_smp_u = onp.stack([onp.asarray(policy.get_action(jnp.asarray(obs[i]), rng=keys[i])) for i in range(nu)])
+
+    # ---- independent reference
+    refs = reference_batch(ap, depth, width, activation, ns, low, high, bool(spec["squash"]), obs, keys)
+    r0 = reference_action(ap, depth, width, activation, ns, low, high, bool(spec["squash"]), obs[0], keys[0])  # unbatched, through pi.sample itself
+    refs[0] = r0
+    eps = [((r["sample_raw"] - r["mean_raw"]) / r["std"]) for r in refs]
+    normal = list(onp.asarray(jax.vmap(lambda k: jax.random.normal(k, (act_dim,)))(keys)))
+    # float64 numpy third opinion + magnitude for the tolerance
+    np_mean, mags = [], []
+    for r in refs:
+        m, mg = numpy_forward(layers, activation, r["norm_obs"])
+        np_mean.append(m)
+        mags.append(mg)
+    L = lambda a: onp.asarray(a, onp.float64).tolist()
+    out.update(
+        low=L(low), high=L(high), norm=None if ns is None else dict(mean=L(ns[0]), var=L(ns[1]), clip=ns[2]), log_std=L(ap["log_std"]),
+        obs=L(obs), got_det=L(got_det), got_smp=L(got_smp), got_det_u=L(got_det_u), got_smp_u=L(got_smp_u),
+        ref_det=[L(r["action"]) for r in refs], ref_smp=[L(r["sample"]) for r in refs], ref_mean_raw=[L(r["mean_raw"]) for r in refs],
+        ref_std=L(refs[0]["std"]), ref_norm_obs=[L(r["norm_obs"]) for r in refs], eps=[L(e) for e in eps], normal=[L(x) for x in normal],
+        np_mean=[L(m) for m in np_mean], mag=mags,
+    )  # fmt: skip
+    if spec.get("with_layers", True):
+        out["layers"] = [dict(kernel=L(W), bias=L(b)) for W, b in layers]
+    return out
+
+
+def net_cases(specs):
+    res = []
+    for s in specs:
+        try:
+            res.append(net_case(s))
+        except Exception as ex:  # the implementation raised on a valid input
+            import traceback
+
+            res.append(dict(spec=s, problems=[dict(key="exception", desc=f"{type(ex).__name__}: {str(ex)[:300]} :: {traceback.format_exc()[-600:]}")]))
+    return dict(results=res)
